@@ -837,11 +837,11 @@ OPENML_ARFF = ["@relation weather", "@attribute pH real", "@attribute coli {2, 1
                "8.1,2,n", "8.2,2,n", "8.3,1,y"]
 
 
-def openml_entries(data_id, bad=None):
+def openml_entries(data_id, bad=None, task_id=None):
     """the cache entries OpenmlSource needs for a tiny fake data set (what the REST API would have returned)"""
     import json
     data = {"data_set_description": {"id": str(data_id), "name": "testdata", "version": "2", "format": "ARFF", "licence": "CC0",
-                                     "file_id": "22044555", "visibility": "public",
+                                     "file_id": str(data_id), "visibility": "public",
                                      "status": "deactivated" if bad == "deactivated" else "active",
                                      "default_target_attribute": "play"}}
     feat = {"data_features": {"feature": [
@@ -849,9 +849,58 @@ def openml_entries(data_id, bad=None):
         {"index": "1", "name": "coli", "data_type": "nominal", "is_ignore": "false", "is_row_identifier": "false"},
         {"index": "2", "name": "play", "data_type": "nominal", "is_ignore": "false", "is_row_identifier": "false"}]}}
     key = "openml_%06d_" % data_id
-    return {key + "data": json.dumps(data).splitlines(),
-            key + "feat": ["{not json"] if bad == "badfeat" else json.dumps(feat).splitlines(),
-            key + "arff": list(OPENML_ARFF)}
+    out = {key + "data": json.dumps(data).splitlines(),
+           key + "feat": ["{not json"] if bad == "badfeat" else json.dumps(feat).splitlines(),
+           key + "arff": list(OPENML_ARFF)}
+    if task_id is not None:
+        task = {"task": {"task_type_id": "1", "input": [{"name": "source_data", "data_set": {"data_set_id": str(data_id), "target_feature": "play"}}]}}
+        out["openml_%06d_task" % task_id] = json.dumps(task).splitlines()
+    return out
+
+
+def openml_urls(entries):
+    """url -> lines, for the fake HttpSource (the REST end points OpenmlSource asks for)"""
+    urls = {}
+    for k, v in entries.items():
+        n = int(k.split("_")[1])
+        kind = k.split("_")[2]
+        url = {"data": "https://openml.org/api/v1/json/data/%d" % n, "feat": "https://openml.org/api/v1/json/data/features/%d" % n,
+               "arff": "https://openml.org/data/v1/download/%d" % n, "task": "https://openml.org/api/v1/json/task/%d" % n}[kind]
+        urls[url] = v
+    return urls
+
+
+def patch_openml_network(urls, stats, delay=0.0):
+    """replace HttpSource and time in coba.environments.openml (as the unit tests do) by fakes; returns the undo function"""
+    import time as realtime
+    import coba.environments.openml as OM
+
+    class FakeHttp:
+        def __init__(self, url, *a, **k):
+            self.url = url.split("?")[0]
+
+        def read(self):
+            stats["requests"] = stats.get("requests", 0) + 1
+            if delay:
+                realtime.sleep(delay)
+            if self.url not in urls:
+                raise RuntimeError("no fake response for " + self.url)
+            return iter(list(urls[self.url]))
+
+    class FakeTime:
+        def sleep(self, secs=0):
+            stats["stagger"] = stats.get("stagger", 0) + 1
+            if delay:
+                realtime.sleep(0.001)
+
+        def __getattr__(self, name):
+            return getattr(realtime, name)
+    saved = (getattr(OM, "HttpSource", None), getattr(OM, "time", None))
+    OM.HttpSource, OM.time = FakeHttp, FakeTime()
+
+    def undo():
+        OM.HttpSource, OM.time = saved
+    return undo
 
 
 def run_openml(case):
@@ -905,9 +954,12 @@ def run_openml(case):
         CobaContext.logger = NullLogger()
         CobaContext.cacher = cacher
         CobaContext.store = {"openml_semaphore": Sem()} if case.get("semaphore", True) else {}
+        net = {}
+        undo_net = patch_openml_network(net, out.setdefault("net", {}))
         for n, rd in enumerate(case["reads"]):
             data_id = 42693 + n
-            entries = openml_entries(data_id, rd.get("bad"))
+            task_id = 7000 + n if rd.get("task") else None
+            entries = openml_entries(data_id, rd.get("bad"), task_id)
 
             def fill(entries=entries):
                 for k, v in entries.items():
@@ -917,12 +969,15 @@ def run_openml(case):
                 fill()
             elif rd["order"] == "during" and case.get("semaphore", True):
                 st["hook"] = fill
+            elif rd["order"] == "network":
+                net.update(openml_urls(entries))       # nothing cached: every entry goes through _http_request and is cached by get_set
             else:
                 served.update(entries)
             a0, r0 = st["acquires"], st["releases"]
             res = {"order": rd["order"], "mode": rd.get("mode", "full"), "bad": rd.get("bad")}
             try:
-                gen = OpenmlSource(data_id=data_id).read()
+                q0, g0 = out["net"].get("requests", 0), out["net"].get("stagger", 0)
+                gen = (OpenmlSource(task_id=task_id) if task_id is not None else OpenmlSource(data_id=data_id)).read()
                 if rd.get("mode") == "partial":
                     it = iter(gen)
                     first = next(it)
@@ -937,14 +992,90 @@ def run_openml(case):
                 res["outcome"] = "raised:" + type(e).__name__
             st["hook"] = None
             res["acquires"], res["releases"] = st["acquires"] - a0, st["releases"] - r0
+            res["requests"], res["stagger"] = out["net"].get("requests", 0) - q0, out["net"].get("stagger", 0) - g0
             res["permits_after"] = st["permits"]
             if case.get("concurrent"):
                 res["array_nonzero"] = [[i, v] for i, v in enumerate(cacher._array) if v != 0][:4]
                 res["locks_nonzero"] = sorted(str(k[1]) for k, v in getattr(cacher, "_locks", {}).items() if v != 0)
             out["reads"].append(res)
     finally:
+        try:
+            undo_net()
+        except NameError:
+            pass
         CobaContext.cacher, CobaContext.store, CobaContext.logger = old_cacher, old_store, old_logger
     return out
+
+
+def run_openml_threads(case):
+    """several readers of different uncached sources really waiting on a blocking semaphore (real threads, fake network)"""
+    import time as realtime
+    import coba.context.cachers as M
+    from coba.context import CobaContext, NullLogger
+    from coba.environments.openml import OpenmlSource
+    permits0 = int(case.get("permits", 3))
+    n = int(case["n"])
+    mu = threading.Lock()
+    st = {"holders": 0, "max_holders": 0, "acquires": 0, "releases": 0, "timeouts": 0}
+    real = threading.Semaphore(permits0)
+
+    class Sem:
+        def acquire(self, *a, **k):
+            ok = real.acquire(timeout=20)
+            with mu:
+                if ok:
+                    st["acquires"] += 1
+                    st["holders"] += 1
+                    st["max_holders"] = max(st["max_holders"], st["holders"])
+                else:
+                    st["timeouts"] += 1
+            if not ok:
+                raise WouldWait()
+            return True
+
+        def release(self, *a, **k):
+            with mu:
+                st["releases"] += 1
+                st["holders"] -= 1
+            real.release()
+    cacher = M.ConcurrentCacher(M.MemoryCacher())
+    urls, net = {}, {}
+    for i in range(n):
+        urls.update(openml_urls(openml_entries(50000 + i, None, (8000 + i) if case.get("task") else None)))
+    old_cacher, old_store, old_logger = CobaContext.cacher, CobaContext.store, CobaContext.logger
+    results = [None] * n
+    undo_net = patch_openml_network(urls, net, delay=0.003)
+    undo_time = patch_time(M, type("T", (), {"sleep": staticmethod(lambda s=0: realtime.sleep(0.001)), "__getattr__": lambda self, nm: getattr(realtime, nm)})())
+    try:
+        CobaContext.logger = NullLogger()
+        CobaContext.cacher = cacher
+        CobaContext.store = {"openml_semaphore": Sem()}
+
+        def reader(i):
+            try:
+                src = OpenmlSource(task_id=8000 + i) if case.get("task") else OpenmlSource(data_id=50000 + i)
+                results[i] = len(list(src.read()))
+            except WouldWait:
+                results[i] = "would-wait"
+            except Exception as e:
+                results[i] = "raised:" + type(e).__name__
+        ths = [threading.Thread(target=reader, args=(i,), daemon=True) for i in range(n)]
+        for t in ths:
+            t.start()
+        deadline = realtime.time() + 40
+        for t in ths:
+            t.join(timeout=max(0.01, deadline - realtime.time()))
+        alive = sum(t.is_alive() for t in ths)
+    finally:
+        undo_net()
+        for name, val in undo_time:
+            setattr(M, name, val)
+        CobaContext.cacher, CobaContext.store, CobaContext.logger = old_cacher, old_store, old_logger
+    free = 0
+    while real.acquire(blocking=False):
+        free += 1
+    return {"results": results, "alive": alive, "free_permits": free, "permits0": permits0, "requests": net.get("requests", 0),
+            "array_nonzero": [[i, v] for i, v in enumerate(cacher._array) if v != 0][:4] if not alive else [], **st}
 
 
 # ------------------------------------------------------------------ key -> slot must not depend on the interpreter
